@@ -401,6 +401,8 @@ func generate(seed uint64, focus, arm string) *plan.Plan {
 		rs := &plan.RedisSpec{LatUs: [2]int64{100, int64([]int{600, 5000, 30_000}[r.intn(3)])}}
 		if r.p(0.5) {
 			p.Router.Cache.MemSize = r.rng(600, 4000)
+		} else if r.p(0.4) {
+			p.Router.Cache.MemSize = 0 // the second level alone
 		}
 		if r.p(0.3) {
 			from := r.i64(2_000_000, max(3_000_000, p.Router.HorizonUs/2))
@@ -447,6 +449,46 @@ func generate(seed uint64, focus, arm string) *plan.Plan {
 					rp.Ops = append(rp.Ops, op)
 					if at+10_000_000 > rp.HorizonUs {
 						rp.HorizonUs = at + 10_000_000
+					}
+				}
+			}
+		}
+		if focus == "C08" && r.p(0.2) {
+			// a refresh that comes back negative while the positive entry is
+			// alive in the second level only (no memory cache, or one too small
+			// to keep it): the negative answer must not take its place there
+			rp := p.Router
+			rs.DownUs, rs.FlushUs = nil, nil
+			if r.p(0.6) {
+				rp.Cache.MemSize = 0
+			}
+			life := int64([]int{8, 12, 20}[r.intn(3)])
+			t0 := r.i64(1_800_000, 3_000_000) // after the second level's first ping
+			for k := 0; k < r.rng(1, 3); k++ {
+				tok := fmt.Sprintf("t%d", 950+k)
+				neg := plan.AnswerSpec{Rcode: []int{3, 2, 5}[r.intn(3)], NNs: r.intn(2), TTLs: []uint32{uint32(life)}, Shape: "plain"}
+				rp.Tokens[tok] = &plan.TokenSpec{Ans: plan.AnswerSpec{NAn: r.rng(1, 3), TTLs: []uint32{uint32(life)}, Shape: "plain"}, Ans2: &neg, Ans2From: 1,
+					Acts: []plan.UpAction{{Kind: "reply", DelayUs: r.i64(200, 20_000)}}}
+				ats := []int64{t0 + int64(k)*r.i64(1000, 50_000), t0 + life*1_000_000*int64(78+r.intn(8))/100}
+				for n := r.rng(1, 3); n > 0; n-- {
+					ats = append(ats, t0+life*1_000_000*int64(88+r.intn(8))/100+r.i64(0, 200_000))
+				}
+				for _, at := range ats {
+					si := r.intn(len(rp.Servers))
+					ci := len(rp.Conns)
+					cc := plan.ClientConn{Idx: ci, Server: si, LingerUs: 8_000_000, Src: "192.0.2.7"}
+					if strings.HasPrefix(rp.Servers[si].Listen, "[::1]") {
+						cc.Src = "2001:db8:a::5"
+					}
+					rp.Conns = append(rp.Conns, cc)
+					op := plan.ClientOp{Idx: len(rp.Ops), Conn: ci, AtUs: at, ID: uint16(r.u64()), Token: tok, NQ: 1, Class: 1, Type: 1, Bits: refdns.BitRD}
+					op.Labels = append([][]byte{[]byte(tok)}, labelsOf("example.com")...)
+					if pr := rp.Servers[si].Proto; pr == "http" || pr == "fasthttp" || pr == "https" {
+						op.Method = "POST"
+					}
+					rp.Ops = append(rp.Ops, op)
+					if at+12_000_000 > rp.HorizonUs {
+						rp.HorizonUs = at + 12_000_000
 					}
 				}
 			}
